@@ -25,6 +25,8 @@ CONSTANTS NTasks, N, MaxOps, MaxRec, MaxT, MTypes,
           Bug
 (* MTypes \subseteq {"Cat", "Last", "Sum", "Boom", "Same"}
    "Same": every record is the very same (shared, immutable) instance, folded by addition - the value counts the records
+   "Mix": merge(a, b) = 2a + b - a merge function that is not associative: a scope's merged view is
+          merge(... merge(merge(own, view of 1st nested), view of 2nd nested) ...), each nested view folded likewise first
    "CatSub": like "Cat", but the records are instances of a SUBCLASS and the merge function answers with an instance of
              the base class: the value belongs to the type that was recorded, whatever class the fold produces
              (its merged view is not observed: the library keys nested values by their class there) *)
@@ -86,6 +88,7 @@ MergeVal(m, lhs, rhs) ==
   IF rhs = <<>> THEN lhs ELSE IF lhs = <<>> THEN rhs
   ELSE CASE m \in {"Cat", "CatSub"} -> lhs \o rhs
          [] m \in {"Sum", "Same"} -> <<lhs[1] + rhs[1]>>
+         [] m = "Mix" -> <<2 * lhs[1] + rhs[1]>>         \* NOT associative: the grouping of the fold shows
          [] OTHER -> rhs
 RECURSIVE FoldKids(_, _, _, _, _)
 FoldKids(vs, ks, m, q, acc) ==
@@ -239,6 +242,7 @@ Record(t, m) ==
                        ELSE CASE m = "Same" -> <<old[1] + 1>>
                               [] m \in {"Cat", "CatSub"} -> IF Bug = "merge_swapped" THEN <<x>> \o old ELSE old \o <<x>>
                               [] m = "Sum" -> <<old[1] + x>>
+                              [] m = "Mix" -> <<2 * old[1] + x>>
                               [] m = "Boom" -> old            \* merge function raises: record dropped
                               [] OTHER -> <<x>>]
   /\ UNCHANGED <<par, kids, phase, mk, kind, done, born, doneAt, cbq, cblog, cur, tg, stack, saved, grp, alive, wait, now, drained>>
